@@ -388,7 +388,7 @@ def cmdAsmConcAccept (a : Args) : String :=
       if tr == ["m:returned:0"] then s!"accept done=0 finished=0 written=0 file={toHex fs.target}"
       else "reject@0 the model finds no valid plan: AssembleFile returns an error without feeding a job"
     | some (items, _) =>
-      let ce : AsmConc.Env := { H := H, chunks := e.chunks, plan := items.map fun it => (it.first, it.last) }
+      let ce : AsmConc.Env := AsmConc.envOf H e items
       let n := a.nat "n"
       let c : ACtx := { H := H, e := e, ce := ce, items := items, store := fun id => (stl.lookup id).join,
                         isBlank := isBlankOf prior, act := act }
